@@ -38,7 +38,7 @@ X(b) == IF b THEN Req ELSE I("1")
 Tree17(p) == Mk3("a", X(p[1]), "b", Mk2("c", X(p[2]), "d", L(<<X(p[3]), I("7")>>)), "l", L(<<X(p[4]), Single("e", X(p[5]))>>))
 Uppers17 == {Null, Single("a", I("2")), Single("b", Single("c", I("3"))), Single("l", L(<<I("9")>>)),
              Single("b", Single("d", L(<<I("5")>>))), Single("z", Req), Mk2("a", I("2"), "b", Mk2("c", I("3"), "d", L(<<I("5")>>)))}
-CasesC17 ==
+CasesC17(lazy) ==
   {[layers |-> IF IsNull(u) THEN <<Tree17(p)>> ELSE <<Tree17(p), u>>] : p \in [1..5 -> BOOLEAN], u \in Uppers17}
 
 ---------------------------------------------------------------------------
@@ -64,16 +64,16 @@ Targets15 == {Base15} \cup Edits(Base15) \cup KindEdits(Base15)
               \cup (IF Bound >= 2 THEN UNION {Edits(t) : t \in Edits(Base15)} ELSE {})
 
 IsKindChange(b, t) == t \in KindEdits(b)
-CasesC15 == {[base |-> Base15, target |-> t] : t \in Targets15}
+CasesC15(lazy) == {[base |-> Base15, target |-> t] : t \in Targets15}
             \cup {[base |-> t, target |-> Base15] : t \in Edits(Base15) \cup KindEdits(Base15)}
 
 Unrelated == Mk2("q", I("1"), "l", L(<<S("u")>>))
 Pool16 == {Base15, Unrelated} \cup Edits(Base15) \cup KindEdits(Base15)
-CasesC16 == {[inputs |-> <<x, y>>] : x \in Pool16, y \in Pool16}
+CasesC16(lazy) == {[inputs |-> <<x, y>>] : x \in Pool16, y \in Pool16}
             \cup (IF Bound >= 2 THEN {[inputs |-> <<Base15, x, y>>] : x \in Edits(Base15), y \in {Put(Base15, "a", I("2")), Del(Base15, "a"), SetM(Base15, "y", L(<<I("2"), I("1")>>)), Unrelated}} ELSE {})
 
 ---------------------------------------------------------------------------
-Cases == CASE Family = "C17" -> CasesC17 [] Family = "C15" -> CasesC15 [] Family = "C16" -> CasesC16
+Cases == CASE Family = "C17" -> CasesC17(0) [] Family = "C15" -> CasesC15(0) [] Family = "C16" -> CasesC16(0)
 
 RECURSIVE FoldIntersect(_, _)
 FoldIntersect(acc, xs) == IF Len(xs) = 0 THEN acc ELSE FoldIntersect(IntersectModel(xs[1], acc), Tail(xs))
